@@ -9,6 +9,7 @@ package sym
 import (
 	"encoding/json"
 	"fmt"
+	"io"
 	"os"
 	"strings"
 	"sync"
@@ -207,6 +208,10 @@ func TempDir(name string) string {
 	}
 	return d
 }
+
+// LinesReader returns a reader over the given lines (joined by newlines). Under the engine the
+// lines are handed to bufio.Scanner one by one, so individual lines may be symbolic.
+func LinesReader(lines []string) io.Reader { return strings.NewReader(strings.Join(lines, "\n")) }
 
 // Run executes a harness natively and returns the ids of failed assertions.
 // ok=false means an assumption did not hold for the model (replay not applicable).
